@@ -80,7 +80,7 @@ def _strategy(dll):
                     st.sampled_from(["rts", "rts", "rts_x", "bam"]), st.integers(61, 400) if fd else st.integers(9, 80))
     # (a tuple mapped to a dict rather than fixed_dictionaries: hypothesis.fuzz_one_input rejects every byte string
     # for fixed_dictionaries with more than three keys in this Hypothesis version - see DESIGN.md 8)
-    keys = ("frames", "own", "max_cmdt", "grants", "eps", "reply_lat")
+    keys = ("frames", "own", "max_cmdt", "grants", "eps", "reply_lat", "tx_time")
     return st.tuples(
         st.lists(_frames(fd), min_size=1, max_size=60),
         st.lists(own, max_size=3),
@@ -88,6 +88,7 @@ def _strategy(dll):
         st.lists(st.sampled_from([1, 2, 255]), min_size=1, max_size=2),
         st.lists(st.sampled_from([0.0, 1e-5, 1e-3]), min_size=1, max_size=2),
         st.sampled_from([[0.001, 0.003], [0.02], [0.05, 0.1]]),
+        st.sampled_from([0.0, 0.0, 0.0005, 0.002]),          # time a send call of the job thread takes (driver write)
     ).map(lambda t: dict(zip(keys, t), dll=dll))
 
 
@@ -185,7 +186,7 @@ class C07:
         w = W.World(latency={"S": [0.0002, 0.0005], "P": [0.0005], "X": [0.001]}, wake_eps=p["eps"], dispatch=[0.0, 1e-5])
         opened = False
         try:
-            s = w.stack("S", dll=p["dll"], max_cmdt=p["max_cmdt"])
+            s = w.stack("S", dll=p["dll"], max_cmdt=p["max_cmdt"], tx_time=p.get("tx_time", 0.0))
             s.add_ca("s", 0, SA_S)      # lowest NAME: no injected claim can take the address away
             s.listen_ca("s")
             s.listen_ecu("L", SA_L)
@@ -223,7 +224,8 @@ class C07:
             own_end = 0.0
             for o in p["own"]:
                 pk = -(-o["n"] // seg)
-                dur = {"bam": (pk + 2) * (0.011 if fd else 0.051), "rts_x": 0.0}.get(o["kind"], (pk + 2) * (max(p.get("reply_lat", [0.003])) + 0.003))
+                dur = {"bam": (pk + 2) * ((0.011 if fd else 0.051) + p.get("tx_time", 0.0)), "rts_x": 0.0}.get(
+                    o["kind"], (pk + 2) * (max(p.get("reply_lat", [0.003])) + 0.003 + 2 * p.get("tx_time", 0.0)))
                 own_end = max(own_end, 0.05 + o["t"] + dur)
             t_rel = max(t, own_end) + t_max + 0.3
             w.run_until(w.t0 + t_rel)
